@@ -17,6 +17,7 @@ fn idx_has(idx: Idx, field: &str) -> bool {
         "opt" => idx.opt,
         "tags" => idx.tags,
         "codes" => idx.codes,
+        "attrs" => idx.attrs,
         _ => false,
     }
 }
